@@ -619,9 +619,13 @@ class GPT:
         for part in self.parts:
             tmplist.append(part.record())
         part_data = b''.join(tmplist)
+        # The CRC covers the whole partition entry array (num_parts entries),
+        # including the unused ones.
+        empty = b'\x00' * (self.header.num_parts - len(self.parts)) * 128
+        parts_crc = crc32(part_data + empty)
 
         if self.is_primary:
-            outlist = [self.header.record(crc32(part_data))]
+            outlist = [self.header.record(parts_crc)]
             if self.apm_parts:
                 outlist.append(b'\x00' * 1024)
             for apm_part in self.apm_parts:
@@ -635,7 +639,7 @@ class GPT:
             outlist = [part_data]
             # Write out all of the "empty" partitions.
             outlist.append(b'\x00' * (self.header.num_parts - len(self.parts)) * 128)
-            outlist.append(self.header.record(crc32(part_data)))
+            outlist.append(self.header.record(parts_crc))
 
         return b''.join(outlist)
 
